@@ -1274,7 +1274,11 @@ f_sort_array (void)
     {
     case T_NUMBER:
       {
-        tmp = builtin_sort_array (copy_array (tmp), (int)arg[1].u.number);
+        /* keep the working copy on the stack: an error raised by the
+         * comparison (mixed element types) must not leak it */
+        push_refed_array (copy_array (tmp));
+        tmp = builtin_sort_array (sp->u.arr, (int)arg[1].u.number);
+        sp--;
         break;
       }
 
@@ -1295,9 +1299,13 @@ f_sort_array (void)
         sort_array_ftc = &ftc;
         process_efun_callback (1, &ftc, F_SORT_ARRAY);
 
+        /* keep the working copy on the stack: an error raised by the
+         * callback must not leak it */
         tmp = copy_array (tmp);
+        push_refed_array (tmp);
         quickSort ((char *) tmp->item, tmp->size, sizeof (tmp->item),
                    sort_array_cmp);
+        sp--;
         sort_array_ftc = old_ptr;
         break;
       }
